@@ -609,17 +609,52 @@ Definition action_wf (a : action) : Prop :=
   | ACommit _ => True
   end.
 
-Lemma admission_eq m accs a :
-  market_wf m -> action_wf a ->
-  admits (create_market m) accs a = admit_spec (is_some (create_market m)) m accs a.
+(** [s] is what the store holds for the configuration [m]. *)
+Definition stored_of (m : market) (s : stored) : Prop :=
+  s_mkt s = m /\
+  s_req_ask s = map normalize_name (map bytes_of (m_req_ask m)) /\
+  s_req_bid s = map normalize_name (map bytes_of (m_req_bid m)) /\
+  s_req_com s = map normalize_name (map bytes_of (m_req_com m)).
+
+Lemma admission_stored m s accs a :
+  market_wf m -> action_wf a -> stored_of m s ->
+  admits (Some s) accs a = admit_spec true m accs a.
 Proof.
-  intros (W1 & W2 & W3 & W4 & W5 & W6 & W7) Wa.
-  destruct (create_market m) as [s|] eqn:C; [|reflexivity].
-  destruct (create_market_stored _ _ C) as (Em & Ea & Eb & Ec).
-  unfold admits, admit_spec. rewrite Em, Ea, Eb, Ec. cbn [is_some andb].
+  intros (W1 & W2 & W3 & W4 & W5 & W6 & W7) Wa (Em & Ea & Eb & Ec).
+  unfold admits, admit_spec. rewrite Em, Ea, Eb, Ec. cbn [andb].
   destruct a as [p sf cf|p sfs cf|cf|p sf cf|p sfs cf]; cbn [action_wf] in Wa;
     rewrite ?attrs_spec_eq, ?flat_fee_spec_eq, ?buyer_fee_spec_eq, ?ask_price_spec_eq by assumption;
     try reflexivity.
   (* commitments: the Go code checks the fee before the flag and the attributes *)
   destruct (flat_fee_spec (m_create_com m) cf), (m_accepting_commitments m), (attrs_spec (m_req_com m) accs); reflexivity.
+Qed.
+
+Lemma admission_eq m accs a :
+  market_wf m -> action_wf a ->
+  admits (create_market m) accs a = admit_spec (is_some (create_market m)) m accs a.
+Proof.
+  intros W Wa. destruct (create_market m) as [s|] eqn:C; [|reflexivity].
+  apply admission_stored; try assumption. apply create_market_stored; assumption.
+Qed.
+
+(** Flag updates keep the correspondence between the store and the configuration, and
+    well-formedness; so admission after any sequence of flag updates is again [admit_spec] of the
+    updated configuration. *)
+Lemma set_flags_stored_of m s ao us ac :
+  stored_of m s -> stored_of (set_flags m ao us ac) (set_flags_stored s ao us ac).
+Proof. intros (Em & Ea & Eb & Ec). unfold stored_of. cbn. rewrite Em. auto. Qed.
+
+Lemma set_flags_wf m ao us ac : market_wf m -> market_wf (set_flags m ao us ac).
+Proof. intros W. exact W. Qed.
+
+Lemma admission_after_flag_updates m s accs a (ups : list (bool * bool * bool)) :
+  market_wf m -> action_wf a -> create_market m = Some s ->
+  let upd_m := fold_left (fun m' u => let '(ao, us, ac) := u in set_flags m' ao us ac) ups m in
+  let upd_s := fold_left (fun s' u => let '(ao, us, ac) := u in set_flags_stored s' ao us ac) ups s in
+  admits (Some upd_s) accs a = admit_spec true upd_m accs a.
+Proof.
+  intros W Wa C. cbn zeta. apply create_market_stored in C. fold (stored_of m s) in C.
+  revert m s W C. induction ups as [|[[ao us] ac] r IH]; intros m s W C; cbn [fold_left].
+  - apply admission_stored; assumption.
+  - apply IH; [apply set_flags_wf; assumption|apply set_flags_stored_of; assumption].
 Qed.
